@@ -16,6 +16,7 @@ import (
 	"github.com/obolnetwork/charon/verifrt"
 
 	"verifsim/kernel"
+	"verifsim/simbeacon"
 	"verifsim/simdata"
 )
 
@@ -95,6 +96,50 @@ func body(c *kernel.Ctx) {
 			return time.Time{}, false
 		}
 		return start.Add(deadline[d]), true
+	}
+	// Production deadline function (a fifth of the runs): the deadliner is given core.NewDutyDeadlineFunc over a
+	// beacon stub (the function every component's deadliner uses in app.go) instead of the harness's table. The
+	// deadlines it assigns are taken as they are (the statement leaves them arbitrary); what the statement fixes
+	// is judged here: exit and builder-registration duties never expire, every other duty type does, and no duty
+	// expires before its own slot has begun.
+	if !overflow && verifrt.Intn("cfg", 5) == 4 {
+		slotDur := 12 * unit
+		spe := uint64(2 + verifrt.Intn("cfg", 3))
+		head := uint64(4 + verifrt.Intn("cfg", 60))
+		// genesis lies half a unit off the grid of the Add instants, so no Add coincides with a deadline
+		chain := &simbeacon.Chain{GenesisTime: start.Add(-time.Duration(head)*slotDur - unit/2), SlotDuration: slotDur, SlotsPerEpoch: spe}
+		real, err := core.NewDutyDeadlineFunc(ctx, &simbeacon.Client{Chain: chain, Label: "c16"})
+		if err != nil {
+			c.Violate("*", "harness", "deadline-func-failed", "%v", err)
+			return
+		}
+		prodTypes := []core.DutyType{core.DutyAttester, core.DutyProposer, core.DutyRandao, core.DutyAggregator, core.DutySyncMessage, core.DutySyncContribution,
+			core.DutyPrepareAggregator, core.DutyPrepareSyncContribution, core.DutyInfoSync, core.DutyExit, core.DutyBuilderRegistration}
+		universe, deadline, exempt = nil, map[core.Duty]time.Duration{}, map[core.Duty]bool{}
+		for tries := 0; len(universe) < 10 && tries < 40; tries++ { // bounded: a replayed tape may repeat one draw for ever
+			d := core.Duty{Slot: head - 3 + uint64(verifrt.Intn("cfg", 6)), Type: prodTypes[verifrt.Intn("cfg", len(prodTypes))]}
+			if _, dup := deadline[d]; dup || exempt[d] {
+				continue
+			}
+			universe = append(universe, d)
+			t, expires := real(d)
+			never := d.Type == core.DutyExit || d.Type == core.DutyBuilderRegistration
+			if expires == never {
+				c.Violate("C16", "never-expiring-types", fmt.Sprintf("%s-expires-%v", d.Type, expires), "the production deadline function says duty %s expires=%v; exit and builder registration duties never expire, every other type does", simdata.Desc(d), expires)
+			}
+			if !expires {
+				exempt[d] = true
+				continue
+			}
+			deadline[d] = t.Sub(start)
+			if slotStart := chain.GenesisTime.Add(time.Duration(d.Slot) * slotDur); !t.After(slotStart) {
+				c.Violate("C16", "deadline-before-slot", d.Type.String(), "the production deadline function puts the deadline of duty %s at %v, not after the start of its slot %v", simdata.Desc(d), t.Sub(start), slotStart.Sub(start))
+			}
+		}
+		span = 12 * int(spe+4) // adders spread their calls over the slots around the head
+		dfn = real
+		c.Set("deadline_func", "core.NewDutyDeadlineFunc")
+		verifrt.Probe("production-deadline-func")
 	}
 	verifrt.SetNode("dl") // the deadliner's goroutine inherits this tag, so it can be stalled
 	dl := core.NewDeadliner(ctx, "c16", dfn)
